@@ -191,10 +191,10 @@ pub fn c16_q_offset() {
 }
 
 macro_rules! c16_points {
-    ($name:ident, $sb:expr, $unw:expr) => {
+    ($name:ident, $smax:expr, $unw:expr) => {
         #[cfg_attr(kani, kani::proof, kani::unwind($unw))]
         pub fn $name() {
-            let r = rect(PB, $sb);
+            let r = Rectangle::new(point(PB), Size::new(upto($smax), upto($smax)));
             let q = point(QB);
             note!("r", r);
             note!("q", q);
@@ -218,9 +218,9 @@ macro_rules! c16_points {
         }
     };
 }
-c16_points!(c16_q_points, 2, 11);
+c16_points!(c16_q_points, 3, 11);
 #[cfg(feature = "thorough")]
-c16_points!(c16_t_points_7x7, 3, 51);
+c16_points!(c16_t_points_5x5, 5, 27);
 
 /// Self-test: the repository's own rectangle expectations, concrete.
 #[cfg_attr(kani, kani::proof, kani::unwind(3))]
